@@ -921,8 +921,8 @@ def retarget(inp, rng):
 
 def generate(tier, rng):
     quick = tier != 'thorough'
-    n_loci_cases = 700 if quick else 7000
-    n_meme = 380 if quick else 3500
+    n_loci_cases = 600 if quick else 4200
+    n_meme = 320 if quick else 2400
     # a small systematic sweep: one locus at every position of a short chromosome, all window parities
     seq = 'ACGTNacgtnGATTACAgg'
     sig = [[(3 * i + 1) % 7 for i in range(len(seq))]]
